@@ -58,8 +58,7 @@ fn params_of(s: &System) -> HashMap<Var, Parameter> {
     params
 }
 
-fn check<F: Function + MathFunction + 'static>(s: &System, backend: &str, bad: &mut Vec<String>) -> Option<HashMap<Var, f32>> {
-    let params = params_of(s);
+fn check<F: Function + MathFunction + 'static>(s: &System, params: &HashMap<Var, Parameter>, backend: &str, bad: &mut Vec<String>) -> Option<HashMap<Var, f32>> {
     // the solver runs on its own thread: a call that does not come back within the limit (5 minutes: the slowest solve seen on the
     // repaired code, 40 unknowns of which three creep toward an exactly-zero solution, takes half a minute) is reported, its thread left behind
     let (tx, rx) = std::sync::mpsc::channel();
@@ -123,16 +122,17 @@ pub fn run(seed: u64, count: usize, outdir: &str) -> std::io::Result<i32> {
         *hist.entry(format!("n={n}")).or_default() += 1;
         *hist.entry(if nfix == 0 { "none-fixed".into() } else if nfix == n { "all-fixed".into() } else { "mixed".to_string() }).or_default() += 1;
         let mut bad = vec![];
-        let a = check::<VmFunction>(&s, "vm", &mut bad);
-        let b = check::<JitFunction>(&s, "jit", &mut bad);
-        if let (Some(a), Some(b)) = (a, b) {
+        // (one parameter map for the solver runs and for the hook: the solver numbers the free variables in its iteration order)
+        let params = params_of(&s);
+        let a = check::<VmFunction>(&s, &params, "vm", &mut bad);
+        let b = check::<JitFunction>(&s, &params, "jit", &mut bad);
+        if let (Some(a), Some(b)) = (&a, &b) {
             for j in 0..n { if !s.fixed[j] { let (x, y) = (a[&s.vars[j]], b[&s.vars[j]]); if (x - y).abs() * s.scale > 1e-3 * (1.0 + x.abs() * s.scale) {
                 bad.push(format!("kind=backends-disagree variable {j}: vm {x} jit {y}")); } } }
         }
         // ---- seed packing through the hook: Jacobian = coefficient matrix, seeds = model's table
         let eqs: Vec<VmFunction> = build(&s);
-        let params = params_of(&s);
-        let (index, rows, _res, grads) = verif_jacobian(&eqs, &params);
+        let (index, rows, res0, grads) = verif_jacobian(&eqs, &params);
         let nfree = index.len();
         let pos = |v: Var| s.vars.iter().position(|x| *x == v);
         for (ti, row) in rows.iter().enumerate() {
@@ -156,6 +156,9 @@ pub fn run(seed: u64, count: usize, outdir: &str) -> std::io::Result<i32> {
             rows_out.sort();
             for (gi, srow) in rows_out { write!(il, " ; {gi}:{srow}").unwrap(); }
         }
+        // did the interpreter run return the starting point unchanged?  (the model predicts it whenever the exit test holds at the start)
+        let stay = match &a { Some(sol) => index.iter().all(|(v, _)| match (sol.get(v), params.get(v)) { (Some(x), Some(Parameter::Free(x0))) => x.to_bits() == x0.to_bits(), _ => false }), None => false };
+        if nfree > 0 { write!(il, " | stay {}", stay as u8).unwrap(); }
         impls.push_str(&il); impls.push('\n');
         // the case for the model: nfree and the grad indices present in the last tape
         let mut line = format!("c19 {nfree}");
@@ -166,6 +169,15 @@ pub fn run(seed: u64, count: usize, outdir: &str) -> std::io::Result<i32> {
             write!(line, " {}", gis.len()).unwrap();
             for g in gis { write!(line, " {g}").unwrap(); }
         } else { line.push_str(" 0"); }
+        // ... and the Jacobian rows, residuals and free values at the starting point (grad-index order), for the exit test
+        if nfree > 0 {
+            let mut cur = vec![0f32; nfree];
+            for (v, gi) in &index { if let Some(Parameter::Free(x0)) = params.get(v) { cur[*gi] = *x0; } }
+            write!(line, " D {} {nfree}", rows.len()).unwrap();
+            for row in &rows { for gi in 0..nfree { write!(line, " {}", canon_bits(row[gi])).unwrap(); } }
+            for r0 in res0.iter() { write!(line, " {}", canon_bits(*r0)).unwrap(); }
+            for x in &cur { write!(line, " {}", canon_bits(*x)).unwrap(); }
+        }
         cases.push_str(&line); cases.push('\n');
         for m in &bad { fails += 1; writeln!(oracle, "FAIL case={ci} {m}").unwrap(); }
         if samples_out.len() < 3 && n <= 5 { samples_out.push(format!("n={n} fixed={:?} start={:?} truth={:?} {il}", s.fixed, s.start, s.truth)); }
